@@ -190,22 +190,31 @@ theorem get_is_extracted_single (h : List Bytes → UInt64) (env : Env) (pa pa' 
     ∃ f, s.flat = [f] ∧ f.name = sp.key ∧
       (s.project h env r).1.get (s.project h env r).2 f =
         (match extract sp.key r.view with | .ok v => v | .error _ => []) := by
-  unfold Parser.parse parseParts at hp
   have hk' : (sp.key == dotConfig) = false := by simpa using hk
   have hf' : (sp.key == dotFullname) = false := by simpa using hf
-  unfold makeProjection at hp
-  simp only [hk', hf', Bool.false_eq_true, if_false] at hp
-  split at hp
-  · simp [parseParts] at hp
-  · dsimp only at hp
-    by_cases he : sp.key.isEmpty = true
-    · rw [if_pos he] at hp; simp [parseParts] at hp
-    · rw [if_neg he] at hp
-      simp only [parseParts, Prod.mk.injEq, Except.ok.injEq] at hp
+  unfold Parser.parse at hp
+  simp only [parseParts] at hp
+  cases hm : makeProjection pa newProjection sp with
+  | mk p1 e =>
+    rw [hm] at hp
+    cases e with
+    | error e => simp at hp
+    | ok s1 =>
+      simp only [Prod.mk.injEq, Except.ok.injEq] at hp
       obtain ⟨_, rfl⟩ := hp
-      refine ⟨mkField sp.key 0 sp.order, by simp [Proj.flat, Proj.addRootField, newProjection, Top.flat], rfl, ?_⟩
-      rw [get_is_extracted_partial]
-      simp [Proj.populateRow, Proj.addRootField, newProjection, runPart, mkField, getVal]
+      unfold makeProjection at hm
+      simp only [hk', hf', Bool.false_eq_true, if_false] at hm
+      split at hm
+      · simp at hm
+      · dsimp only at hm
+        by_cases he : sp.key.isEmpty = true
+        · rw [if_pos he] at hm; simp at hm
+        · rw [if_neg he] at hm
+          simp only [Prod.mk.injEq, Except.ok.injEq] at hm
+          obtain ⟨_, rfl⟩ := hm
+          refine ⟨mkField sp.key 0 sp.order, by simp [Proj.flat, Proj.addRootField, newProjection, Top.flat], rfl, ?_⟩
+          rw [get_is_extracted_partial]
+          simp [Proj.populateRow, Proj.addRootField, newProjection, runPart, mkField, getVal]
 
 /-! ### ProjectValues -/
 
@@ -230,45 +239,44 @@ theorem project_values_only_unit (h : List Bytes → UInt64) (p : Proj) (ui : Na
   rw [hv, getVal_trim]
   unfold getVal
   by_cases hf : f.idx = ui
-  · simp [hf, hui]
+  · simp [hf, hui, List.getD_eq_getElem?_getD, List.getElem?_set]
   · have : ¬ ui = f.idx := fun e => hf e.symm
-    simp [hf, List.getD, List.getElem?_set, this]
+    simp [hf, this, List.getD_eq_getElem?_getD, List.getElem?_set]
 
 /-! ### NonSingularFields -/
 
-/-- **nonsingular_spec**: `NonSingularFields(keys)` is exactly the list of flattened fields (in
-flattened order) on which two of the keys differ. -/
-theorem nonsingular_spec (p : Proj) (keys : List Nat) :
-    p.nonSingular keys = p.flat.filter (fun f => keys.any fun a => keys.any fun b => p.get a f != p.get b f) := by
+/-- **nonsingular_spec**: `NonSingularFields(keys)` consists of exactly the flattened fields on
+which two of the keys differ (for two keys: the fields on which they differ)… -/
+theorem nonsingular_spec (p : Proj) (keys : List Nat) (f : Field) :
+    f ∈ p.nonSingular keys ↔ f ∈ p.flat ∧ ∃ a ∈ keys, ∃ b ∈ keys, p.get a f ≠ p.get b f := by
   unfold Proj.nonSingular
   match keys with
   | [] => simp
   | [k] => simp
   | k0 :: k1 :: rest =>
-    apply List.filter_congr
-    intro f _
-    simp only [List.any_cons, bne_self_eq_false, Bool.false_or]
-    rw [Bool.eq_iff_iff]
-    simp only [Bool.or_eq_true, List.any_eq_true, bne_iff_ne, ne_eq]
+    simp only [List.mem_filter, List.any_eq_true, bne_iff_ne, ne_eq]
     constructor
-    · rintro (h1 | ⟨k, hk, hne⟩)
-      · exact Or.inr (Or.inl (Or.inl h1))
-      · refine Or.inr (Or.inr ⟨k, hk, Or.inl hne⟩)
-    · intro hany
+    · rintro ⟨hf, k, hk, hne⟩
+      exact ⟨hf, k, List.mem_cons_of_mem _ hk, k0, List.mem_cons_self, hne⟩
+    · rintro ⟨hf, a, ha, b, hb, hne⟩
+      refine ⟨hf, ?_⟩
       apply Classical.byContradiction
       intro hno
-      simp only [not_or, not_exists, not_and, Decidable.not_not] at hno
-      have hall : ∀ k, k = k0 ∨ k = k1 ∨ k ∈ rest → p.get k f = p.get k0 f := by
+      have hall : ∀ k ∈ k0 :: k1 :: rest, p.get k f = p.get k0 f := by
         intro k hk
-        rcases hk with rfl | rfl | hk
+        rcases List.mem_cons.mp hk with rfl | hk
         · rfl
-        · exact hno.1
-        · exact hno.2 k hk
-      rcases hany with (h | h | ⟨b, hb, h⟩) | (h | h | ⟨b, hb, h⟩) | ⟨a, ha, (h | h | ⟨b, hb, h⟩)⟩
-      all_goals first
-        | exact h (by rw [hall _ (Or.inl rfl)])
-        | (apply h; simp [hall _ (Or.inr (Or.inl rfl)), hall _ (Or.inr (Or.inr ‹_›)), hall _ (Or.inl rfl)])
-        | skip
-      all_goals sorry
+        · apply Classical.byContradiction
+          intro hne'
+          exact hno ⟨k, hk, hne'⟩
+      exact hne ((hall a ha).trans (hall b hb).symm)
+
+/-- …listed in flattened-field order, each once. -/
+theorem nonsingular_order (p : Proj) (keys : List Nat) : (p.nonSingular keys).Sublist p.flat := by
+  unfold Proj.nonSingular
+  match keys with
+  | [] => simp
+  | [k] => simp
+  | k0 :: k1 :: rest => exact List.filter_sublist
 
 end C08
